@@ -84,41 +84,6 @@ func arith(cur *mval, tok string, rhs *mval) (*mval, bool) {
 
 var oneVal = scalarOf(&tengo.Int{Value: 1})
 
-// exclusion names the open finding whose pattern the operation would
-// exercise: a write, or an in-place append, through a mutable array that the
-// present implementation carved out of sealed immutable storage.
-func (m *model) exclusion(o *op) string {
-	x, _, err := m.resolve(o.H, o.Path)
-	if err != nil {
-		return ""
-	}
-	arrTaint := func(v *mval) string {
-		if v != nil && v.k == kArr {
-			return v.st.taint()
-		}
-		return ""
-	}
-	switch o.Kind {
-	case "assign", "compound", "incdec", "forin", "splice":
-		if x.k == kArr && !x.imm {
-			return arrTaint(x)
-		}
-	case "append", "add":
-		return arrTaint(x)
-	case "forval":
-		if x.k == kArr && !x.st.fuzzy {
-			for _, c := range x.window() {
-				if c.k == kArr && !c.imm {
-					if t := arrTaint(c); t != "" {
-						return t
-					}
-				}
-			}
-		}
-	}
-	return ""
-}
-
 // apply runs one operation on the model. A non-nil error is a defect of the
 // generator or a malformed replay, never a verdict.
 func (m *model) apply(o *op) (out outcome, herr error) {
@@ -160,7 +125,7 @@ func (m *model) apply(o *op) (out outcome, herr error) {
 		if err != nil {
 			return out, err
 		}
-		res = m.appendTo(x, vals, "F15")
+		res = m.appendTo(x, vals)
 	case "add":
 		var y *mval
 		if o.Val != nil {
@@ -178,11 +143,8 @@ func (m *model) apply(o *op) (out outcome, herr error) {
 		if y.st.fuzzy {
 			return out, fmt.Errorf("add: right operand has unknown contents")
 		}
-		// The sum is a new array (docs/operators.md; since the repair of F1 /
-		// F16 the implementation always allocates one). The model keeps it
-		// in the alias group of the left operand all the same, so that it
-		// stays sound should an implementation reuse spare capacity.
-		res = m.appendTo(x, append([]*mval{}, y.window()...), "F16")
+		// the sum is a new array (docs/operators.md: "return a concatenated array")
+		res = m.concat(x, y)
 	case "copy":
 		if !clean(x) {
 			return out, fmt.Errorf("copy of a value with unknown contents")
@@ -250,7 +212,6 @@ func (m *model) apply(o *op) (out outcome, herr error) {
 			} else {
 				s := m.newStore(make([]*mval, newLen))
 				s.fuzzy = true
-				s.via = old.taint()
 				touch(old)
 				join(s, old)
 				x.st, x.off, x.n = s, 0, newLen
@@ -271,7 +232,6 @@ func (m *model) apply(o *op) (out outcome, herr error) {
 		} else {
 			// in place when capacity allows, else the array moves
 			s := m.newStore(newCells)
-			s.via = old.taint()
 			touch(old)
 			old.fuzzy = true
 			join(s, old)
